@@ -21,6 +21,11 @@ from mc.space import grammar as G
 QUOTED_AT = re.compile(
     r'''('(?:[^'\\]|\\.)*'|"(?:[^"\\]|\\.)*") at (\d+):(\d+)''')
 WATCHDOG = 10.0
+# once a worker process has seen this many confirmed time-outs, it stops
+# executing further cases (each costs 40 s of CPU): the run is then reported
+# as capped, not exhaustive - it only happens on a tree that violates C12
+TIMEOUT_CAP = 4
+_TIMEOUTS = {'n': 0}
 
 
 def where_of(e):
@@ -107,6 +112,9 @@ def run_one(text, mode):
 def check_text(acc, text, modes=('parse', 'lex')):
     for mode in modes:
         acc.cases += 1
+        if _TIMEOUTS['n'] >= TIMEOUT_CAP:
+            acc.out['not-run:time-out-cap-reached'] += 1
+            continue
         try:
             try:
                 kind, e = call_with_timeout(WATCHDOG, run_one, text, mode)
@@ -114,6 +122,7 @@ def check_text(acc, text, modes=('parse', 'lex')):
                 # confirm with three times the CPU budget before believing it
                 kind, e = call_with_timeout(3 * WATCHDOG, run_one, text, mode)
         except CaseTimeout:
+            _TIMEOUTS['n'] += 1
             acc.bag.add('C12|%s|does-not-terminate' % mode,
                         {'text': text, 'mode': mode},
                         'no result within %s s of CPU time (twice)' % (3 * WATCHDOG))
@@ -210,6 +219,9 @@ def run_pumped(texts):
         acc = Acc()
         for t, pre, suf in chunk:
             acc.cases += 1
+            if _TIMEOUTS['n'] >= 4 * TIMEOUT_CAP:
+                acc.out['not-run:time-out-cap-reached'] += 1
+                continue
             try:
                 try:
                     kind, e = call_with_timeout(PUMP_BUDGET, run_one, t,
@@ -218,6 +230,7 @@ def run_pumped(texts):
                     kind, e = call_with_timeout(3 * PUMP_BUDGET, run_one, t,
                                                 'parse')
             except CaseTimeout:
+                _TIMEOUTS['n'] += 1
                 acc.bag.add(
                     'C12|parse|running-time-explodes|prefix=%s|suffix=%s' % (
                         pre.replace('\n', 'LF') or 'none',
@@ -385,6 +398,12 @@ def run(tier, rep):
     rep.cov['evaluations'] = total.cases
     rep.cov['distinct_nontrivial'] = total.nontrivial
     rep.outcome(total.out)
+    skipped = rep.cov['outcomes'].get('not-run:time-out-cap-reached', 0)
+    if skipped:
+        rep.cov['exhaustive'] = False
+        rep.cov['caps_hit'].append(
+            '%d cases not executed: their worker had already reported %d '
+            'confirmed time-outs' % (skipped, TIMEOUT_CAP))
     rep.sample([{'text': strs[len(strs) // 3]}, {'text': muts[len(muts) // 2]},
                 {'text': plus[len(plus) // 2]}, {'text': s1[-1]}])
     rep.cov['rule'] = (
